@@ -52,7 +52,7 @@ POOLS = {
     'waves': [[450.0, 550.0, 650.0], {'$tuple': [450.0, 550.0, 650.0]}, '@WV3'],
     'wave_q': [[500.0, 510.0, 615.0], '@WVQ', '@WVQ', '@WVC', 550.0],
     'centres': [[450.0, 500.0, 550.0, 600.0], [475.0, 525.0, 575.0], '@WVC'],
-    'qe': [0.8, '@QEV', '@SP1', '@SP2', [0.5, 0.6, 0.7]],
+    'qe': [0.8, '@QEV', '@SP1', '@SP2', [0.5, 0.6, 0.7], '@QEN'],
     'gain': [0.02, '@GV', '@G2', '@G3', [1e-5, 0.02]],
     'satcap': [None, 2500, 4000.0],
     'dtype': [None, 'uint16', 'float32'],
